@@ -648,6 +648,9 @@ func c03Run(c *engine.Ctx) {
 			for _, xdr := range []bool{false, true} {
 				cs := c03Case{Mode: "reader", G: g, G2: follower, XDR: xdr, Ext: f.Ext, NaN: f.NaN}
 				runReader(c, cs, bound, &capped)
+				// and the other way round: this geometry is the LAST one of the stream, so its final
+				// bytes (a count of zero, a coordinate, a nested member) may arrive together with io.EOF
+				runReader(c, c03Case{Mode: "reader", G: follower, G2: g, XDR: xdr, Ext: f.Ext, NaN: f.NaN}, bound, &capped)
 				if len(ref.EncodeWKB(g, xdr, f.Ext)) <= 22 {
 					cs.Full = true
 					cs.G2 = ref.NewCollection(geom.XY) // 9-byte follower keeps the full enumeration small
